@@ -158,6 +158,7 @@ type boundedSpec struct{ pkg, file, test, bound string }
 var boundedNotes []string
 var structuralNotes []string
 var structuralChecked int
+var evidenceRoots, evidenceLemmas []string
 var structuralFns []string
 
 // structural side conditions: lines `structural <Cxx> nondet-free <root-regex>...` in specs/properties.conf
@@ -298,6 +299,14 @@ func cmdCheck(args []string) int {
 		work = append(work, k)
 	}
 	sort.Strings(work)
+	evidenceRoots = append([]string{}, work...)
+	evidenceLemmas = nil
+	for _, p := range propPats {
+		if strings.HasPrefix(p, "lemma:") {
+			evidenceLemmas = append(evidenceLemmas, p)
+		}
+	}
+	sort.Strings(evidenceLemmas)
 	done := map[string]*fnReport{}
 	var reports []*fnReport
 	var genFailures []string
@@ -333,6 +342,34 @@ func cmdCheck(args []string) int {
 		for _, cal := range rep.Callees {
 			if done[cal] == nil {
 				work = append(work, cal)
+			}
+		}
+	}
+	// the functions this property is expected to have under contract (specs/expected/<id>.txt, regenerated with
+	// bin/mkexpected after deliberate changes): a property line lost from a contract file would otherwise shrink the
+	// check silently
+	if *only == "" {
+		if data, err := os.ReadFile(filepath.Join(verifDir, "specs", "expected", id+".txt")); err == nil {
+			for _, ln := range strings.Split(string(data), "\n") {
+				ln = strings.TrimSpace(ln)
+				if ln == "" || strings.HasPrefix(ln, "#") {
+					continue
+				}
+				if strings.HasPrefix(ln, "lemma:") {
+					found := false
+					for _, p := range propPats {
+						if p == ln {
+							found = true
+						}
+					}
+					if !found {
+						genFailures = append(genFailures, ln+"#binding: expected lemma is no longer bound to property "+id)
+					}
+					continue
+				}
+				if done[ln] == nil {
+					genFailures = append(genFailures, ln+"#binding: expected function is no longer under contract for property "+id+" (property line lost?)")
+				}
 			}
 		}
 	}
@@ -405,10 +442,24 @@ func cmdCheck(args []string) int {
 	}
 	var vacuous []string
 	retTotal, retDead := map[string]int{}, map[string]int{}
+	coverRes := map[string]string{}
+	for _, o := range covers {
+		coverRes[o.Name] = o.Result
+	}
 	for _, o := range covers {
 		isRet := strings.Contains(o.Name, "#cover[ret")
 		if isRet {
 			retTotal[o.Fn]++
+		}
+		if strings.Contains(o.Name, "#cover[before-") {
+			continue // only meaningful together with its after- twin
+		}
+		if strings.Contains(o.Name, "#cover[after-") {
+			// the assumed contract of this call refutes its own continuation although the call itself was not proved dead
+			if o.Result == "unsat" && coverRes[strings.Replace(o.Name, "#cover[after-", "#cover[before-", 1)] != "unsat" {
+				vacuous = append(vacuous, o.Name)
+			}
+			continue
 		}
 		if o.Result == "unsat" {
 			if isRet {
@@ -651,7 +702,7 @@ func writeEvidence(c *Ctx, id, tier string, seed int, reports []*fnReport, all, 
 		"obligations": len(all), "discharged": nDis,
 		"checker_cmd":  "bin/check " + id + " " + tier,
 		"trusted_base": tb, "samples": samples,
-		"functions_under_contract": fucs, "property_obligations": nProp,
+		"functions_under_contract": fucs, "property_obligations": nProp, "property_roots": evidenceRoots, "lemmas_bound": evidenceLemmas,
 		"backend_wins": wins, "solver_ms_total": solverMs,
 		"phase_seconds": map[string]float64{"load": loadS, "generate": genS, "solve": solveS},
 		"failed":        failedNames, "known_findings_hit": knownHits,
